@@ -127,6 +127,10 @@ class WrongSource(Exception):
     pass
 
 
+class BaseMarker(BaseException):
+    """an exception that is not an Exception (like KeyboardInterrupt): callbacks may raise those too"""
+
+
 def py_limit(lim):
     if lim is None:
         return None
@@ -152,13 +156,14 @@ def py_source(s):
     return PWithSelection(pools.py_pool(s["pw"]), pools.py_which(s["which"]))
 
 
-def run_mech_impl(mech, calls, fault=None, use_foreach=False):
+def run_mech_impl(mech, calls, fault=None, use_foreach=False, base_exception=False):
     """returns list of results ({'ok': items} | {'exc': name}) and the number of callback invocations"""
     from dyce import H
     from dyce.evaluation import expandable, foreach, HResult, PResult
     counter = {"n": 0}
     fs = {}
     states = mech["states"]
+    raised = []
 
     def result_key(r):
         if isinstance(r, HResult):
@@ -191,7 +196,8 @@ def run_mech_impl(mech, calls, fault=None, use_foreach=False):
             n = counter["n"]
             counter["n"] += 1
             if fault is not None and n == fault:
-                raise Marker("fault")
+                raised.append(BaseMarker("fault") if base_exception else Marker("fault"))
+                raise raised[-1]
             results = list(args) + [kw[names[j]] for j in range(st["npos"], len(st["srcs"]))]
             # "each callback parameter receives the result of the source passed in that position or
             # keyword together with that source": compare the source carried by the result with the
@@ -229,8 +235,10 @@ def run_mech_impl(mech, calls, fault=None, use_foreach=False):
         try:
             r = invoke(st, lim)
             out.append({"ok": hist_items(r)})
-        except Marker as e:
-            out.append({"exc": "UserError", "which": str(e)})
+        except (Marker, BaseMarker) as e:
+            # the very object raised in the callback must reach the caller
+            same = bool(raised) and e is raised[-1] if str(e) == "fault" else True
+            out.append({"exc": "UserError", "which": str(e) if same else "fault-but-different-object"})
         except WrongSource:
             out.append({"exc": "WrongSource"})
         except (ValueError, TypeError, IndexError, ZeroDivisionError, RecursionError) as e:
